@@ -29,36 +29,46 @@ PAL = ["csr_pal", "cscr_pal", "banded_pal", "dense_pal", "bcsr_pal"]
 
 
 def configs(tier):
+    PATOPS = ["conv", "transp", "permute", "graph", "layout"]      # calls whose result depends on the sparsity pattern
     c = [
         # every call once on every seed matrix (exhaustive over inputs)
         cfgd("single: csr shapes <= 3x2/2x3 + entry-free 3x5, all patterns, all permutation pairs", ["csr_small"], perm="all"),
-        cfgd("single: csr 3x3 all 512 patterns", ["csr_33"]),
+        cfgd("single: csr 3x3 all 512 patterns, pattern dependent calls", ["csr_33"], ops=PATOPS),
         cfgd("single: cscr all patterns x row lists", ["cscr_small"]),
         cfgd("single: banded all offset sets", ["banded_small"]),
         cfgd("single: dense", ["dense_small"]),
         cfgd("single: bcsr 2x2 / 2x3 / 3x2 blocks, all block patterns, all permutation pairs", ["bcsr22", "bcsr23", "bcsr32"], perm="all"),
         cfgd("single: palette seeds built as float/uint32 and double/uint32", PAL, seedtypes=["f32u32", "f64u32"]),
-        cfgd("single: stored zeros and repeated values", ["csr_small", "banded_pal", "cscr_pal", "bcsr_pal"], pal=2, types=["f32u32"]),
+        cfgd("single: stored zeros and repeated values", ["csr_small", "banded_pal", "cscr_pal", "bcsr_pal"], pal=2, types=["f32u32"], ops=PATOPS + ["clone"]),
         # pairs: transpose twice, permutation then every permutation (incl. the inverse)
         cfgd("double transpose", ["csr_small", "dense_small", "bcsr22", "bcsr23", "bcsr32"], ops=["transp"], depth=2, ns=3, types=[]),
-        cfgd("permute twice (all pairs of permutation pairs)", ["csr_small", "bcsr_perm"], ops=["permute"], depth=2, ns=1, types=[], perm="all"),
-        # aliasing: clone / same-type convert / layout, then poke, format, copy
-        cfgd("alias chains: clone, convert, layout, poke, format, copy on 3 slots", PAL, ops=["clone", "poke", "copy", "format", "layout"],
+        cfgd("permute twice (all pairs of permutation pairs)", ["csr_perm", "bcsr_perm"], ops=["permute"], depth=2, ns=1, types=[], perm="all"),
+        # aliasing: clone / layout, then poke, format, copy
+        cfgd("alias chains of 3 calls on 3 slots: clone, layout, poke, copy", ["mini"], ops=["clone", "poke", "copy", "layout"],
              depth=3, ns=3, types=[]),
+        cfgd("alias chains of 2 calls on 2 slots incl. type-converting clones and converts", PAL, ops=["clone", "conv", "poke", "copy", "format", "layout"],
+             depth=2, ns=2, types=["f32u32"]),
         # general chains
-        cfgd("chains of 3 calls, 2 slots, all calls", PAL, depth=3, ns=2, types=["f32u32"]),
+        cfgd("chains of 2 calls, 2 slots, all calls", PAL, depth=2, ns=2, types=[]),
+        cfgd("chains of 3 calls, 2 slots: convert, transpose, permute, weak/shallow... clone, poke", ["mini"], depth=3, ns=2, types=[],
+             ops=["conv", "transp", "permute", "clone", "poke"]),
     ]
     if tier == "thorough":
         c += [
-            cfgd("single: csr 4x4 patterns with 5..6 entries", ["csr_44"]),
+            cfgd("single: csr 3x3 all 512 patterns, remaining calls", ["csr_33"], ops=["clone", "copy", "format", "poke"]),
+            cfgd("single: csr 4x4 patterns with 5..6 entries", ["csr_44"], ops=PATOPS),
             cfgd("single: cscr 3x3", ["cscr_33"]),
             cfgd("single: banded 4x4, 4x2, 1x4", ["banded_44"]),
-            cfgd("single: bcsr 3x3 blocks", ["bcsr_33"]),
+            cfgd("single: bcsr 3x3 blocks", ["bcsr_33"], ops=PATOPS),
             cfgd("single: csr 3x3 all patterns, stored zeros, all permutation pairs", ["csr_33"], pal=2, perm="all", types=["f32u32"],
                  ops=["conv", "transp", "permute", "graph"]),
-            cfgd("alias chains of 4 calls on 3 slots", ["csr_pal", "bcsr_pal", "dense_pal"], ops=["clone", "poke", "copy", "format", "conv"], depth=4, ns=3, types=[]),
-            cfgd("chains of 3 calls, 3 slots, all calls", PAL, depth=3, ns=3, types=["f32u32"]),
-            cfgd("chains of 4 calls, 2 slots", ["csr_pal", "banded_pal", "bcsr_pal"], depth=4, ns=2, types=[]),
+            cfgd("alias chains of 3 calls on 3 slots, chain palette", PAL, ops=["clone", "poke", "copy", "format", "layout"], depth=3, ns=3, types=[]),
+            cfgd("alias chains of 4 calls on 3 slots", ["mini"], ops=["clone", "poke", "copy", "conv"], depth=4, ns=3, types=[]),
+            cfgd("permute twice, all csr shapes <= 3x2/2x3", ["csr_small"], ops=["permute"], depth=2, ns=1, types=[], perm="all"),
+            cfgd("chains of 3 calls, 2 slots, all calls", ["mini"], depth=3, ns=2, types=["f32u32"]),
+            cfgd("chains of 3 calls, 3 slots, all calls", ["mini"], depth=3, ns=3, types=[]),
+            cfgd("chains of 3 calls, 2 slots, all calls, chain palette", PAL, depth=3, ns=2, types=[]),
+            cfgd("chains of 4 calls, 2 slots", ["mini"], depth=4, ns=2, types=[], ops=["conv", "clone", "transp", "permute", "layout", "copy", "poke"]),
             cfgd("random chains of 10 calls on 3 slots (simulate)", PAL, depth=10, ns=3, simulate=4000, workers=4),
             cfgd("random chains of 16 calls on 3 slots, stored zeros (simulate)", PAL, depth=16, ns=3, simulate=1500, pal=2, workers=4),
         ]
@@ -137,19 +147,41 @@ def sig_of(case, k, what):
     return sig
 
 
-def confirm_and_localise(binary, case, res):
+def run_alone(binary, path, k, case):
+    """replay history k of ndjson file `path` alone in a fresh process"""
+    import subprocess
+    e = dict(os.environ); e.setdefault("OMP_NUM_THREADS", "1")
+    p = subprocess.run([binary, "--cases", path, "--only", str(k), "--timeout", "20"], stdout=subprocess.PIPE, stderr=subprocess.PIPE, env=e,
+                       errors="replace", text=True)
+    for line in p.stdout.splitlines():
+        if line.startswith("R "):
+            sp = line.split(" ", 2)
+            try:
+                return json.loads(sp[2])
+            except Exception:
+                break
+    rc = p.returncode
+    oc = "hang" if rc == 97 else (("abort" if -rc == 6 else "signal%d" % (-rc)) if rc < 0 else "exit%d" % rc)
+    if "B %d" % k not in p.stdout:
+        raise vlib.MachineryError("harness %s did not reach history %d of %s (rc=%s): %s" % (binary, k, path, rc, p.stderr[-500:]))
+    return {"ok": None, "outcome": oc, "stderr": p.stderr.strip()[:1500]}
+
+
+def confirm_and_localise(binary, path, k, case):
     """re-run a failing history alone in a fresh process (a real defect that corrupts the heap must not be blamed on the
     histories replayed after it in the same process); for abnormal terminations find the first failing step by prefixes"""
-    r = vlib.run_cases(binary, [case], tmo=20, shards=1)[0]
+    r = run_alone(binary, path, k, case)
     if r.get("ok") is True:
         return None, None, None
     if "step" in r:
         return r, int(r["step"]), r.get("what", "mismatch")
-    pre = [{"ns": case["ns"], "steps": case["steps"][:k + 1]} for k in range(1, len(case["steps"]))]
+    if len(case["steps"]) == 2:
+        return r, 1, r.get("outcome", "mismatch")
+    pre = [{"ns": case["ns"], "steps": case["steps"][:j + 1]} for j in range(1, len(case["steps"]))]
     rs = vlib.run_cases(binary, pre, tmo=20, shards=1)
-    for k, x in enumerate(rs):
+    for j, x in enumerate(rs):
         if x.get("ok") is not True:
-            return r, k + 1, r.get("outcome") or x.get("outcome") or "mismatch"
+            return r, j + 1, r.get("outcome") or x.get("outcome") or "mismatch"
     return r, len(case["steps"]) - 1, r.get("outcome", "mismatch")
 
 
@@ -164,10 +196,20 @@ def judge(chk, binary, cases, results):
             ops[st["op"]] = ops.get(st["op"], 0) + 1
         chk.count(json.dumps([[s["op"], s["src"], s["dst"], s["fmt"], s["ty"], s["mode"], s["p"], s["q"], s["k"], s["full"]] for s in c["steps"][1:]]
                              + [c["steps"][0]["exp"][0]["st"]], sort_keys=True), True)
-    with cf.ThreadPoolExecutor(max_workers=vlib.NCPU) as ex:
-        futs = [(k, ex.submit(confirm_and_localise, binary, cases[k], results[k])) for k in bad]
-        for k, f in futs:
-            r, step, what = f.result()
+    import tempfile, shutil
+    tmpd = tempfile.mkdtemp(prefix="cases_", dir=vlib.BUILD)
+    path = os.path.join(tmpd, "failed.ndjson")
+    with open(path, "w") as f:
+        for k in bad:
+            f.write(json.dumps(cases[k], separators=(",", ":")) + "\n")
+    try:
+        with cf.ThreadPoolExecutor(max_workers=vlib.NCPU) as ex:
+            futs = [(k, ex.submit(confirm_and_localise, binary, path, j, cases[k])) for j, k in enumerate(bad)]
+            outs = [(k, f.result()) for k, f in futs]
+    finally:
+        shutil.rmtree(tmpd, ignore_errors=True)
+    if True:
+        for k, (r, step, what) in outs:
             if r is None:
                 unconfirmed += 1
                 continue
@@ -181,9 +223,15 @@ def judge(chk, binary, cases, results):
 
 def run(chk):
     binary, = vlib.build([HARNESS])
+    import time
+    t0 = time.time()
     cases = generate(chk, chk.tier)
+    t1 = time.time()
     res = vlib.run_cases(binary, cases, tmo=20)
+    t2 = time.time()
     judge(chk, binary, cases, res)
+    vlib.log("[C02] %d histories: generation %.0fs, replay %.0fs, confirmation of %d disagreements in isolation %.0fs" % (
+        len(cases), t1 - t0, t2 - t1, sum(1 for r in res if r.get("ok") is not True), time.time() - t2))
     chk.traces = len(cases)
     chk.exhaustive = True
     chk.rule = ("every behaviour of spec/Convert.tla within the configured bounds: (a) every seed matrix of the palettes (all sparsity patterns of "
